@@ -30,6 +30,7 @@ type c13X struct {
 	Final         []c13Expect // expected final replies (nil if no final response is due)
 	Expect        []string    // expected codes/classes of all replies after the RCPTs up to (excluding) the finals, e.g. "354", "250", "E" (error, single)
 	After         []string    // expected after the finals
+	Backpressure  bool        // no buffering in the network: a Write returns when the peer has read it; long message, backend done early
 	MidRefused    int         // a BDAT with a bad LAST token, refused with its payload discarded, after this many RCPT commands of the judged transaction (-1 = none): the envelope goes on
 	Prelude       int         // an earlier transaction on the same connection, with other recipients: 0 none, 1 RSET after the recipients, 2 first BDAT refused for its size, 3 BDAT with a bad LAST token then RSET, 4 completed with DATA, 5 completed with BDAT LAST, 6 a chunk then RSET with the aborted delivery panicking late
 	Stall         bool        // DATA: the client falls silent inside the message until ReadTimeout strikes; it keeps listening
@@ -70,6 +71,13 @@ func genC13(t *Tape, tier string) *Scenario {
 	}
 	x.ViaBdat = t.Named("c13bdat", 2) == 1
 	msg := mkMessage(20 + t.Intn(100))
+	if !x.ViaBdat && t.Chance(1, 8) {
+		// flow control: nothing is buffered between the two ends, the message is long, and the
+		// backend has its verdicts long before the client has finished sending - the server
+		// must go on taking the message while its replies wait to be read
+		x.Backpressure = true
+		msg = mkMessage(9000 + t.Intn(3000))
+	}
 	if x.ViaBdat {
 		k := 1 + t.Intn(3)
 		rest := len(msg)
@@ -98,6 +106,9 @@ func genC13(t *Tape, tier string) *Scenario {
 	mode := t.Named("c13mode", 4) // 0 normal, 1 panic, 2 early failure, 3 out of contract
 	if x.Flavor == bePlain && mode == 3 {
 		mode = 0
+	}
+	if x.Backpressure {
+		mode = 2
 	}
 	// per-occurrence statuses
 	final := make([]c13Expect, len(x.Accepted))
@@ -193,6 +204,9 @@ func genC13(t *Tape, tier string) *Scenario {
 	}
 	if mode == 2 && len(msg) > 2 {
 		x.EarlyFail = t.Intn(len(msg) - 1)
+		if x.Backpressure {
+			x.EarlyFail = t.Intn(2000)
+		}
 		dp.ReadMode = readK
 		dp.ReadK = x.EarlyFail
 		if dp.V.Kind == vOK && x.Flavor == beLMTP && t.Bool() {
@@ -246,6 +260,9 @@ func genC13(t *Tape, tier string) *Scenario {
 	sc.BE.Conns = []ConnBackendPlan{{Data: []DataPlan{dp}}}
 
 	lock := t.Bool()
+	if x.Backpressure {
+		lock = true // a client that writes while replies wait to be read would block itself
+	}
 	w := func() int {
 		if lock {
 			return 1
@@ -257,6 +274,9 @@ func genC13(t *Tape, tier string) *Scenario {
 	// an earlier transaction on the same connection whose recipient list differs:
 	// nothing of it may show in the statuses of the one that is judged
 	x.Prelude = t.Named("c13prelude", 7)
+	if x.Backpressure {
+		x.Prelude = 0 // (the preludes count on buffers and on a size limit)
+	}
 	if x.Prelude > 0 {
 		steps = append(steps, Step{Kind: kMail, Data: line("MAIL FROM:<ok-early@a.example>"), Wait: 1})
 		x.Pre++
@@ -301,7 +321,7 @@ func genC13(t *Tape, tier string) *Scenario {
 	}
 	steps = append(steps, Step{Kind: kMail, Data: line("MAIL FROM:<ok-s@a.example>"), Wait: 1})
 	x.MidRefused = -1
-	if t.Chance(1, 5) {
+	if t.Chance(1, 5) && !x.Backpressure {
 		x.MidRefused = 1 + t.Intn(len(x.Rcpts))
 	}
 	for i, r := range x.Rcpts {
@@ -321,6 +341,9 @@ func genC13(t *Tape, tier string) *Scenario {
 		steps = append(steps, Step{Kind: kData, Data: []byte("DATA\r\n"), Wait: 1},
 			Step{Kind: kBody, Data: stream, Need: 354, Segs: drawSegs(t, len(stream), nil), Wait: -1 * w()})
 		x.Expect = []string{"354"}
+		if x.Backpressure {
+			steps[len(steps)-1].Segs = nil
+		}
 		if mode == 0 && t.Chance(1, 8) {
 			// fault stratum: the message never ends (the client falls silent past ReadTimeout but
 			// keeps listening): every accepted recipient still gets its reply - none of them
@@ -376,6 +399,11 @@ func genC13(t *Tape, tier string) *Scenario {
 		x.After = nil // the connection ends
 	}
 	cs := ConnScript{Lat: drawLat(t), SrvCaps: drawCaps(t), Steps: steps}
+	if x.Backpressure {
+		cs.SrvFaults.Rendezvous = true
+		cs.SrvCaps = nil
+		sc.Srv.ReadTO, sc.Srv.WriteTO, sc.Srv.MaxMsg = 0, 0, 0
+	}
 	cs.defaults()
 	if x.Stall {
 		cs.AwaitTO = 15 * time.Minute // the client outwaits the server's ReadTimeout
@@ -605,6 +633,9 @@ func classifyC13(sc *Scenario, h *History, st *Stats) string {
 	if x.MidRefused >= 0 {
 		st.Probes["malformed_BDAT_refused_between_the_recipients"]++
 	}
+	if x.Backpressure {
+		st.Faults["unbuffered_network_long_message_backend_done_early"]++
+	}
 	if x.EarlyFail >= 0 {
 		st.Probes["backend_fails_early"]++
 		if x.ViaBdat && x.FailChunk == len(x.Chunks)-1 {
@@ -628,7 +659,7 @@ func classifyC13(sc *Scenario, h *History, st *Stats) string {
 func init() {
 	register(&Property{
 		ID: "C13", Level: "exploration",
-		Rule:     "LMTP server; 1-4 accepted recipients over two addresses (duplicates) with rejected RCPTs interleaved; per-recipient backend that sets a drawn subset of statuses in a drawn order before, after and after-a-park relative to consuming the message, returns nil / SMTPError / plain error, panics at one of three points, fails early after k octets, or breaks the contract (too many statuses, unknown recipient: judged for no-deadlock only); plain backend; DATA and BDAT in 1-4 chunks (LAST possibly empty); lock-step or pipelined. Expected final replies come from the occurrence rule (k-th status for an address belongs to its k-th occurrence, else the return value). Non-trivial: >= 2 recipients or any explicit status, panic or early failure; distinct by (recipient list, transfer, chunking, backend flavour, status calls, return kind, panic, early-failure point). An earlier transaction on the same connection with other recipients (systematic: none, RSET, first BDAT refused for size, malformed BDAT then RSET, completed with DATA, completed with BDAT). In a fifth of the runs a BDAT command with a bad LAST token is refused, payload and all, somewhere between the RCPT commands of the judged transaction, which goes on as before.",
+		Rule:     "LMTP server; 1-4 accepted recipients over two addresses (duplicates) with rejected RCPTs interleaved; per-recipient backend that sets a drawn subset of statuses in a drawn order before, after and after-a-park relative to consuming the message, returns nil / SMTPError / plain error, panics at one of three points, fails early after k octets, or breaks the contract (too many statuses, unknown recipient: judged for no-deadlock only); plain backend; DATA and BDAT in 1-4 chunks (LAST possibly empty); lock-step or pipelined. Expected final replies come from the occurrence rule (k-th status for an address belongs to its k-th occurrence, else the return value). Non-trivial: >= 2 recipients or any explicit status, panic or early failure; distinct by (recipient list, transfer, chunking, backend flavour, status calls, return kind, panic, early-failure point). An earlier transaction on the same connection with other recipients (systematic: none, RSET, first BDAT refused for size, malformed BDAT then RSET, completed with DATA, completed with BDAT). In a fifth of the runs a BDAT command with a bad LAST token is refused, payload and all, somewhere between the RCPT commands of the judged transaction, which goes on as before. Flow-control stratum: a network that buffers nothing (a Write returns when the peer has read it), a message of 9-12 kB and a backend that has its verdicts after at most 2000 octets - the replies wait to be read while the rest of the message is still being taken.",
 		Gen:      genC13,
 		Check:    checkC13,
 		Classify: classifyC13,
@@ -652,7 +683,7 @@ func init() {
 		Real:        []string{"smtp.Server.Serve/handleConn", "smtp.Conn handleDataLMTP, handleBdat (LMTP), statusCollector, delivery goroutines, panic recovery", "io.Pipe", "net/textproto", "bufio"},
 		Stub:        []string{"net.Listener (SimListener)", "net.Conn (SimConn)", "Backend/LMTPSession/StatusCollector caller (SimBackend)", "clock (synctest)", "LMTP client (raw driver)"},
 		Assumptions: []string{"statuses a backend set explicitly before it panicked are honoured; the others must not be 2xx", "out-of-contract backends are judged only for no deadlock / no crash"},
-		Required:    []string{"backend_fails_early_during_LAST_chunk", "backend_returns_nil_early", "backend_panic_logged_to_slow_sink", "duplicate_recipient", "out_of_contract_backend", "rejected_rcpt_interleaved", "backend_panic", "earlier_transaction_BDAT_refused_for_size", "earlier_transaction_BDAT_malformed_then_RSET", "earlier_transaction_completed_with_BDAT", "read_timeout_inside_LMTP_DATA_peer_keeps_listening", "earlier_transaction_aborted_delivery_panics_late", "malformed_BDAT_refused_between_the_recipients"},
+		Required:    []string{"backend_fails_early_during_LAST_chunk", "backend_returns_nil_early", "backend_panic_logged_to_slow_sink", "duplicate_recipient", "out_of_contract_backend", "rejected_rcpt_interleaved", "backend_panic", "earlier_transaction_BDAT_refused_for_size", "earlier_transaction_BDAT_malformed_then_RSET", "earlier_transaction_completed_with_BDAT", "read_timeout_inside_LMTP_DATA_peer_keeps_listening", "earlier_transaction_aborted_delivery_panics_late", "malformed_BDAT_refused_between_the_recipients", "unbuffered_network_long_message_backend_done_early"},
 		QuickRuns:   200000, ThoroughRuns: 4000000,
 	})
 }
